@@ -70,9 +70,13 @@ pub fn run_l2(rep: &Reporter, args: &Args) {
         let base_id: u16 = 0x4000 | (r.next() as u16 & 0x0fff);
         let mut js = vec![];
         let all_requests: Arc<Mutex<Vec<(usize, u16, u16, u8, u16, IpAddr)>>> = Default::default();
-        for c in 0..nclients {
+        // two more clients take strict turns with fixed TTL patterns (A x, B y, A x again ...): whatever one client's
+        // request does to the shared raw socket must not leak into the other's
+        let turn = Arc::new(std::sync::atomic::AtomicUsize::new(0));
+        for c in 0..nclients + 2 {
             let addr = ep.addr;
             let reqs = all_requests.clone();
+            let turn = turn.clone();
             let mut rr = Rng::derive(args.seed, 0xc11f, c as u64);
             js.push(tokio::spawn(async move {
                 let o = tls_connect(addr, Some("main.test"), &[b"h2"], Duration::from_secs(3)).await;
@@ -85,12 +89,22 @@ pub fn run_l2(rep: &Reporter, args: &Args) {
                 if resp.status() != 200 { return Err(format!("_icmp answered {}", resp.status())); }
                 let mut body = resp.into_body();
                 let mut mine = vec![];
-                for k in 0..per_client {
+                let taking_turns = c >= nclients;
+                let pattern: [u8; 8] = if c == nclients { [64, 64, 64, 7, 7, 64, 64, 64] } else { [7, 7, 255, 255, 7, 7, 1, 1] };
+                for k in 0..(if taking_turns { pattern.len() } else { per_client }) {
                     let id = base_id + c as u16;
                     let seq = (c * 1000 + k) as u16;
-                    let ttl = *rr.pick(&[1u8, 7, 64, 255]);
-                    let size = *rr.pick(&[0u16, 8, 56, 600]);
-                    let dst: IpAddr = if k % 5 == 4 { "::1".parse().unwrap() } else { "127.0.0.1".parse().unwrap() };
+                    let mut ttl = *rr.pick(&[1u8, 7, 64, 255]);
+                    let mut size = *rr.pick(&[0u16, 8, 56, 600]);
+                    let mut dst: IpAddr = if k % 5 == 4 { "::1".parse().unwrap() } else { "127.0.0.1".parse().unwrap() };
+                    if taking_turns {
+                        ttl = pattern[k];
+                        size = 8;
+                        dst = "127.0.0.1".parse().unwrap();
+                        // wait for my turn (bounded: the other client may have failed to connect)
+                        let mine_is = 2 * k + (c - nclients);
+                        for _ in 0..400 { if turn.load(std::sync::atomic::Ordering::SeqCst) >= mine_is { break; } tokio::time::sleep(Duration::from_millis(5)).await; }
+                    }
                     let rec = rec73(id, dst, seq, ttl, size);
                     // records are sometimes split across DATA frames
                     let cut = if k % 3 == 0 { rr.range(1, rec.len() as u64 - 1) as usize } else { rec.len() };
@@ -99,6 +113,7 @@ pub fn run_l2(rep: &Reporter, args: &Args) {
                     let _ = tx.send_data(Bytes::copy_from_slice(&rec[..cut]), false);
                     if cut < rec.len() { tokio::time::sleep(Duration::from_millis(3)).await; let _ = tx.send_data(Bytes::copy_from_slice(&rec[cut..]), false); }
                     mine.push((c, id, seq, ttl, size, dst));
+                    if taking_turns { tokio::time::sleep(Duration::from_millis(25)).await; turn.fetch_add(1, std::sync::atomic::Ordering::SeqCst); }
                     tokio::time::sleep(Duration::from_millis(rr.below(15))).await;
                 }
                 reqs.lock().unwrap().extend(mine.clone());
